@@ -796,7 +796,7 @@ func genApi(g *genCtx) {
 			nh *= 25
 		}
 		for h := 0; h < nh; h++ {
-			n := 3 + g.rng.Intn(5)
+			n := 3 + g.rng.Intn(8)
 			ops := head(k.kind, k.sp, inbound())
 			for j := 0; j < n; j++ {
 				spec := pool[g.rng.Intn(len(pool))]
